@@ -9,6 +9,7 @@ replays them through amp.EncodePath/DecodePath/CacheURL and the in-package
 test harness/inpkg/client_lib/rendezvous_verif_test.go through the real
 httpRendezvous.Exchange / ampCacheRendezvous.Exchange over an in-memory
 http.RoundTripper."""
+import json
 import os
 import vlib
 
@@ -168,3 +169,24 @@ MANIFEST = {
     "text": "The path codec, the AMP domain-prefix algorithm (literally the five steps of the AMP text on character positions, with punycode/SHA-256/base32 uninterpreted and supplied by the libraries), the cache URL construction and the request/result contract of an exchange are explicit TLA+ operators; TLC evaluates them on every point of the bounded partitions (path shapes, leading characters of 1-4 UTF-8 bytes x hyphens x dots, label lengths around 63, URL component classes, front x cache x broker x status x size around the limit x body shape) and the real code is executed on each and compared with TLC's expectation. Exhaustive over the contract's partitions; bound to code by differential replay. The endpoint equivalence clause is decided by the Broker replay.",
     "note": "Bounded: paddings of <= 5 tokens, leads of <= 5 characters (quick 3), publisher paths of <= 3 segments, six broker URL classes; concrete spellings seeded. Don't-care: which error; 4-byte characters before position 4 where character and UTF-16 positions disagree; URLs without a faithful cache form; 200 with Location on the AMP path.",
 }
+
+
+# --- extension part built separately: the uTLS HTTP round tripper the client's rendezvous uses when a TLS fingerprint
+# --- is configured (spec/UtlsRT, lib/checks/c12_utls.py, notes/UtlsRT.md) ------------------------------------------
+_run_core = run
+
+
+def run(chk, args):
+    only = set(args.only.split(",")) if args.only else None
+    if args.replay:
+        with open(args.replay) as fh:
+            rp = json.load(fh)["replay"]
+        if isinstance(rp, dict) and str(rp.get("kind", "")).startswith("utls-"):
+            from checks import c12_utls
+            return c12_utls.replay_part(chk, rp)
+        return _run_core(chk, args)
+    if only is None or only - {"utls"}:
+        _run_core(chk, args)
+    if only is None or "utls" in only:
+        from checks import c12_utls
+        c12_utls.run_utls_part(chk, chk.tier == "quick")
